@@ -169,6 +169,9 @@ def c031_version(ctx):
         for h in hs:
             p = P.reach(f, P.after(f, h), [h], avoid=set(pts) | set(P.error_points(f)) | (set(heads) - {h}))
             ctx.check(R, f, "every:" + label, p is None, "every %s is pushed" % label, "an %s can be skipped" % label, pt=h, path=p)
+            ity = K.loop_iterator_type(f, h)
+            ctx.check(R, f, "iterates-every:" + label, not K.DROPPING_ADAPTERS.search(ity), "the loop visits every %s (%s)" % (label, ity[:70]),
+                      "the %ss are iterated through `%s`, which can leave files out" % (label, ity[:140]), pt=h)
         ctx.floor(R, label + " loop", len(hs), 1)
     # deeper levels: a file is skipped only on a false edge of compare_bounds_le
     for pts, label in ((lv_push, "deeper-level file"),):
@@ -179,6 +182,12 @@ def c031_version(ctx):
                 fe.add((b.idx, "sw:0"))
         ctx.floor(R, "overlap tests", len(fe), 2)
         for h in hs:
+            ity = K.loop_iterator_type(f, h)
+            sub = K.loop_source_subslice(f, h)
+            ctx.check(R, f, "whole-level:" + label, sub is None, "the loop runs over the level's whole file list", "the loop runs over a sub-slice of the level's files (%s)" % sub, pt=h)
+            ctx.check(R, f, "iterates-every:" + label, not K.DROPPING_ADAPTERS.search(ity), "the loop visits every file of the level (%s)" % ity[:70],
+                      "the level's files are iterated through `%s`: files are left out by an iterator adaptor, not by the overlap test "
+                      "(versions of one key can span adjacent files of a level)" % ity[:140], pt=h)
             p = P.reach(f, P.after(f, h), [h], avoid=set(pts) | set(P.error_points(f)) | (set(heads) - {h}), avoid_edges=fe)
             ctx.check(R, f, "every:" + label, p is None, "a %s is skipped only when its key range does not overlap the bounds" % label,
                       "an overlapping %s can be skipped" % label, pt=h, path=p)
